@@ -149,6 +149,46 @@ def variant_unit(variants, idx, mag=False):
                 program={"chunk": idx, "n": len(variants)}, n_programs=len(variants), max_paths=5)
 
 
+def shared_objects_unit():
+    """The user keeps the Event / Transition objects and builds TWO models from them, with a derived parameter of the
+    same name defined differently in each; the first model is evaluated before the second is built.  Each model must be
+    the model of ITS definition (and agree with the same process set written out as explicit ODE terms)."""
+    def h(c):
+        from pygom import SimulateOde, Transition, Event
+        from pygom.model import ode_utils
+        env = {s: c.real("x_" + s) for s in STATES}
+        env["t"] = c.real("t")
+        for p in PARAMS:
+            env[p] = c.real("th_" + p)
+        x = [env[s] for s in STATES]
+        th = [env[p] for p in PARAMS]
+        objs = [Event(rate="a*X*Y/N", transition_list=[Transition(origin="X", destination="Y", transition_type="T")]),
+                Event(rate="b*Z*N", transition_list=[Transition(origin="Z", transition_type="D")]),
+                Transition(destination="X", equation="g*N", transition_type="B")]
+        defs = [("N", "X+Y", V("X") + V("Y")), ("N", "X+Y+Z", V("X") + V("Y") + V("Z"))]
+        models = []
+        for k, (nm, txt, e) in enumerate(defs):
+            m = SimulateOde(state=list(STATES), param=list(PARAMS), derived_param=[(nm, txt)], event=list(objs))
+            m._SC = ode_utils.compileCode(backend="lambda")
+            m.parameters = th
+            spec = expr.ModelSpec("shared%d" % k, STATES, PARAMS,
+                                  [expr.Ev(V("a") * V("X") * V("Y") / V("N"), [expr.Tr("T", "X", "Y")]), expr.Ev(V("b") * V("Z") * V("N"), [expr.Tr("D", origin="Z")]),
+                                   expr.Ev(V("g") * V("N"), [expr.Tr("B", destination="X")])], [], [(nm, e)])
+            models.append((m, spec))
+            for rnd in range(2 if k == 0 else 1):       # the first model is looked at before the second one exists
+                check_one(c, m, spec, x, env, "[model %d of 2 built from the same Event objects, derived N = %s]" % (k + 1, txt))
+        check_one(c, models[0][0], models[0][1], x, env, "[model 1 again, after model 2 was built and evaluated]")
+
+    def check_one(c, m, spec, x, env, label):
+        f_ref = [expr.ev(e, env) for e in spec.rhs()]
+        eq = m.get_ode_eqn()
+        c.prove(all_close([s2z.s2z(eq[i], env) for i in range(3)], f_ref, c), "%s get_ode_eqn == the process set's ODE" % label)
+        c.prove(all_close(m.ode(x, env["t"]), f_ref, c), "%s ode(x,t) == the process set's ODE" % label)
+        c.prove(all_close(np.asarray(m.jacobian(x, env["t"]), dtype=object), [[expr.ev(expr.d(e, s_), env) for s_ in STATES] for e in spec.rhs()], c), "%s jacobian(x,t)" % label)
+        c.prove(all_close(np.asarray(m.eventRateVector(x, env["t"]), dtype=object).ravel(), [expr.ev(e, env) for e in spec.rates()], c), "%s eventRateVector" % label)
+    return Unit("C12.shared_definition_objects", h, bounds={"models": 2, "processes": 3}, max_paths=5)
+
+
 def all_variants(routes_table=None):
     routes_table = routes_table or ROUTES
     out = []
@@ -182,6 +222,7 @@ class C12(Check):
         self.nV = len(va) + len(vm)
         us = [variant_unit(ch, i) for i, ch in enumerate(chunks(va, 16 if tier == "quick" else 48))]
         us += [variant_unit(ch, i, mag=True) for i, ch in enumerate(chunks(vm, 16 if tier == "quick" else 48))]
+        us.append(shared_objects_unit())
         return us
 
     def extra(self, tier, seed):
